@@ -93,3 +93,42 @@ Theorem C16_sort_is_document_filter : forall (E l : list (nat * qn)),
   sort_by_idx l = filter (fun x => existsb (fun y => (fst y =? fst x)%nat) l) E.
 Proof. exact sort_is_document_filter. Qed.
 Print Assumptions C16_sort_is_document_filter.
+
+(* ==== the composition of the steps over the tree ======================================= *)
+From PBK Require Import Nested QueryRef QueryRefProofs.
+
+(* a small wired tree: a value, a fixed replication of two repetitions of (002001 002002
+   002001), a delayed replication with its factor; the 002001 values carry attributes *)
+Definition ex16_nodes : wnodes :=
+  WCons (WValue 0)
+ (WCons (WFixed 103002 3 2 (WCons (WValue 1) (WCons (WValue 2) (WCons (WValue 3)
+                           (WCons (WValue 4) (WCons (WValue 5) (WCons (WValue 6) WNil)))))))
+ (WCons (WDelayed 101000 1 7 (WCons (WValue 8) (WCons (WValue 9) WNil))) WNil)).
+Definition ex16_labels : list (list char) :=
+  map id6 [1001; 2001; 2002; 2001; 2001; 2002; 2001; 31001; 4001; 4001; 33007; 33007]%N.
+Definition ex16_attrs : list attr := [(1, 10, false); (1, 11, false); (3, 10, false); (4, 10, false); (6, 11, false)]%N.
+(* /103002/002001[::-1].033007[::-1] *)
+Definition ex16_path : path :=
+  mkPath None [mkComp ch_slash (id6 103002) (SInt 0);
+               mkComp ch_slash (id6 2001) (SSlice None None (Some (-1)%Z));
+               mkComp ch_dot (id6 33007) (SSlice None None (Some (-1)%Z))].
+
+(* THE QUERY EQUALS THE REFERENCE EVALUATION OVER THE WIRED TREE, for every tree, every
+   attribute relation, every path of child and attribute steps (executable hypothesis
+   [simple_path]: no descendant step), every slice, every fuel above 2*|path|+1; error
+   cases included: both sides give the same error class (QueryError for a missing
+   'members' / 'attributes' / value, ValueError for a zero slice step, IndexError for
+   an empty path). *)
+Theorem C16_query_eq_tree_reference : forall attrs labels fuel nodes p,
+  simple_path (p_comps p) = true -> (2 * length (p_comps p) + 1 <= fuel)%nat ->
+  process_one_subset attrs labels fuel nodes p = eval_ref_nodes attrs labels nodes (p_comps p).
+Proof. exact process_one_subset_ref_nodes. Qed.
+Print Assumptions C16_query_eq_tree_reference.
+
+Example C16_query_eq_tree_reference_nonvacuous :
+  simple_path (p_comps ex16_path) = true /\
+  process_one_subset ex16_attrs ex16_labels 7 ex16_nodes ex16_path =
+    Ok [VList [VList [VIdx 10; VIdx 11; VIdx 10]; VList [VIdx 10; VIdx 11]]] /\
+  eval_ref_nodes ex16_attrs ex16_labels ex16_nodes (p_comps ex16_path) =
+    Ok [VList [VList [VIdx 10; VIdx 11; VIdx 10]; VList [VIdx 10; VIdx 11]]].
+Proof. vm_compute. repeat split; reflexivity. Qed.
